@@ -27,6 +27,7 @@ def leading(d):
 
 
 def _spec(kind):
+    kind = kind.split("+", 1)[0]
     kind = "connect" if kind.startswith("connect") else kind
     if kind == "101":
         return dict(method="GET", url="http://a.test/t/u0", headers=[("Connection", "upgrade"), ("Upgrade", "sim-proto")], ext={})
@@ -34,6 +35,12 @@ def _spec(kind):
 
 
 def _plan(kind, d, echo=True):
+    if "+" in kind:
+        # interim responses (100 Continue / 103 Early Hints) before the hand-over response, all in the same byte stream
+        base, interim = kind.split("+", 1)
+        plan = _plan(base, d, echo)
+        plan["interim"] = [int(x) for x in interim.split("+")]
+        return plan
     if kind.startswith("connect-"):
         return {"status": int(kind.split("-")[1]), "reason": "Tunnel", "headers": [], "leading": leading(d), "echo": echo}
     if kind == "101":
@@ -186,7 +193,7 @@ _HEAD = {}
 
 def enum_cases(tier):
     out = []
-    for kind in ("101", "connect", "connect-201", "connect-204", "connect-299"):
+    for kind in ("101", "connect", "connect-201", "connect-204", "connect-299", "101+103", "101+100+103", "connect+103"):
         for d in range(0, 7 if kind in ("101", "connect") else 4):
             npos = d + 2  # cut positions head_end-2 .. head_end+d-1 (relative: -2 .. d-1)
             for mask in range(1 << npos):
